@@ -145,7 +145,16 @@ func (g *Gen) readWiring() {
 				}
 			case *ast.CompositeLit:
 				if _, ok := x.Type.(*ast.StructType); !ok {
-					return true
+					// or a named struct type of the package made of boolean switches only (the parameter struct given a name)
+					st, isStruct := g.pkg.TypesInfo.TypeOf(x).Underlying().(*types.Struct)
+					if !isStruct || st.NumFields() == 0 {
+						return true
+					}
+					for i := 0; i < st.NumFields(); i++ {
+						if b, isBasic := st.Field(i).Type().Underlying().(*types.Basic); !isBasic || b.Kind() != types.Bool {
+							return true
+						}
+					}
 				}
 				for _, e := range x.Elts {
 					kv, ok := e.(*ast.KeyValueExpr)
